@@ -29,13 +29,16 @@ RULES = {
     "R9": "one coordinate system for the mapped data file: ExternalTensor maps the file from byte 0 and every position "
     "used with the mapping (np.frombuffer offset=, slices of self.raw) is the tensor's absolute file offset - or, if the "
     "mapping starts at a window base, every position in every method is taken relative to that same base",
+    "R10": "byte access to a framework tensor is view-aware: the adapters take the base address of the bytes from the "
+    "tensor itself (tensor.data_ptr()) - a pointer taken from the underlying storage object ignores the view's storage "
+    "offset, so a slice / chunk of a larger tensor would emit the first bytes of the storage instead of its own elements",
     "R7": "logical element order: every flattening / reshaping / byte-producing array call on the tensor byte paths "
     "(ravel, flatten, reshape, tobytes, resize) uses row-major order - no order= other than 'C' - so elements and bytes "
     "follow the declared shape, not the array's memory layout",
     "R6": "packing constants: masks are ((1<<K)-1) shifted by multiples of K, shifts are multiples of K below 8, "
     "strides and padding moduli are 8/K in each helper",
 }
-FLOORS = {"R1": 120, "R2": 4, "R3": 8, "R4": 1, "R5": 6, "R6": 20, "R7": 30, "R8": 4, "R9": 2}
+FLOORS = {"R1": 120, "R2": 4, "R3": 8, "R4": 1, "R5": 6, "R6": 20, "R7": 30, "R8": 4, "R9": 2, "R10": 1}
 EXPLANATION = (
     "Evaluates the enum and table literals of _enums/_core/tensor_adapters with ast only and compares them with "
     "each other; derives the sub-byte classes from _BITWIDTH_MAP and checks every storage guard, packing-helper "
@@ -736,7 +739,31 @@ def rule_r9(ctx):
                   construct=f"{label} {norm(e)}")
 
 
+def rule_r10(ctx):
+    m = ctx.repo.module("onnx_ir.tensor_adapters")
+    n = 0
+    for f in m.all_funcs:
+        if isinstance(f.node, ast.Lambda):
+            continue
+        # names bound to a storage object
+        storages = {a.targets[0].id for a in own_nodes(f.node) if isinstance(a, ast.Assign) and isinstance(a.targets[0], ast.Name)
+                    and isinstance(a.value, ast.Call) and isinstance(a.value.func, ast.Attribute) and a.value.func.attr in ("untyped_storage", "storage", "_typed_storage")}
+        for c in (x for x in own_nodes(f.node) if isinstance(x, ast.Call) and isinstance(x.func, ast.Attribute) and x.func.attr == "data_ptr"):
+            n += 1
+            recv = c.func.value
+            via_storage = (isinstance(recv, ast.Call) and isinstance(recv.func, ast.Attribute) and recv.func.attr in ("untyped_storage", "storage", "_typed_storage")) \
+                or (isinstance(recv, ast.Name) and recv.id in storages)
+            offset_added = any(isinstance(x, ast.Attribute) and x.attr == "storage_offset" for x in ast.walk(getattr(c, "_parent", c)))
+            ctx.check("R10", f"{f.local}: {norm(c)} is the tensor's own address", not via_storage or offset_added, f, c,
+                      f"`{norm(c)}` is the address of the storage, not of the tensor: for a contiguous view that starts part-way into its storage "
+                      "(a row slice, a chunk of a fused weight) tobytes()/tofile() emit the wrong elements while numpy() stays right",
+                      how="receiver of data_ptr() is the tensor, not untyped_storage()/storage() (unless storage_offset() is added)",
+                      construct=f"storage-level pointer {norm(c)}")
+    ctx.require(n >= 1, "no data_ptr() call found in tensor_adapters")
+
+
 def run(ctx):
+    rule_r10(ctx)
     rule_r7(ctx)
     rule_r8(ctx)
     rule_r9(ctx)
